@@ -1201,7 +1201,11 @@ class C15(HistoryProfile):
             {"k": "bundle", "ops": ["trigger_schema"], "a": [
               ["AddTable", "G", [{"id": "d1", "type": "Int", "isFormula": False},
                                  {"id": "d2", "type": "Int", "isFormula": False},
-                                 {"id": "txt", "type": "Text", "isFormula": False}]],
+                                 {"id": "txt", "type": "Text", "isFormula": False},
+                                 # a formula column usable as a dependency: it is recomputed (and
+                                 # changes) exactly when d1 changes
+                                 {"id": "fx", "type": "Any", "isFormula": True,
+                                  "formula": "($d1 if isinstance($d1, (int, float)) else 0) * 2 + 1"}]],
               ["BulkAddRecord", "G", [None] * 3, {"d1": [1, 2, 3], "d2": [0, 0, 5], "txt": ["a", "b", ""]}]]}]
 
   def _tcols(self, dv):
@@ -1230,12 +1234,17 @@ class C15(HistoryProfile):
                                                "formula": TRIGGER_FORMULA, "recalcWhen": when}]]}
     if r < 0.30:
       c = rng.choice(tcols)
-      pool = datacols + tcols
+      # dependencies: data columns, the formula column fx, or the column itself (data cleaning).
+      # (Chains through other trigger columns would make "recomputed in that row" depend on the
+      # evaluation order; they are left out so that the model stays two-valued where it can.)
+      fxc = [x for x in t.cols.values() if x.colId == "fx" or x.formula.endswith("* 2 + 1")]
+      pool = datacols + fxc + [c]
       deps = sorted(x.ref for x in rng.sample(pool, rng.randint(0, min(3, len(pool)))))
       upd = rng.choice([{"recalcDeps": (["L"] + deps) if deps else None},
                         {"recalcWhen": rng.choice([0, 1, 2])},
                         {"recalcWhen": rng.choice([0, 1, 2]), "recalcDeps": (["L"] + deps) if deps else None}])
-      return {"k": "bundle", "ops": ["reconfigure"], "a": [["ModifyColumn", "G", c.colId, upd]]}
+      # (through the metadata record, as the client does: ModifyColumn cannot carry a list value)
+      return {"k": "bundle", "ops": ["reconfigure"], "a": [["UpdateRecord", "_grist_Tables_column", c.ref, upd]]}
     if r < 0.37 and datacols:
       c = rng.choice(datacols)
       if rng.random() < 0.6:
@@ -1302,10 +1311,19 @@ class C15(HistoryProfile):
       when = cp.recalcWhen or 0
       deps = set(cp.recalcDeps)
       dep_ids = set()
+      other_trigger_dep = False
       for d in deps:
         dc = dvp.col_by_ref.get(d)
         if dc is not None:
-          dep_ids.add(dc.colId)
+          if dc.isFormula and dc.formula.endswith("* 2 + 1"):
+            # fx is recomputed and changes exactly when the cell it reads (d1, whatever its
+            # current name) changes
+            src = sorted(fx.rec_attrs(dc.formula))
+            dep_ids.update(src)
+          elif dc.is_trigger and d != ref:
+            other_trigger_dep = True
+          else:
+            dep_ids.add(dc.colId)
       self_dep = (when == 0 and ref in deps)
       for r in post:
         now = post[r][cq.colId]
@@ -1339,7 +1357,7 @@ class C15(HistoryProfile):
         if op in ("dep_rename", "dep_type", "remove", "add"):
           allowed, verdict = kept, "schema changes / other rows never trigger recalculation"
         elif op == "reconfigure":
-          if a[2] == cp.colId:
+          if a[2] == cp.ref:
             allowed, verdict = kept | fired, "reconfigured column: unconstrained"
           else:
             allowed, verdict = kept, "reconfiguring another column must not fire this one"
@@ -1375,6 +1393,8 @@ class C15(HistoryProfile):
                 allowed, verdict = kept | fired, "DEFAULT: dependency written with an equal value"
         else:
           continue
+        if other_trigger_dep and when == 0 and op == "update":
+          allowed = allowed | fired      # a dependency that is itself recomputed in this row: may
         if not self._in(now, allowed):
           raise vio(sim, "trigger-model", "G[%s].%s went %r -> %r after %s; %s (allowed %s; recalcWhen=%s deps=%s)" % (
             r, cq.colId, before, now, json.dumps(a, default=repr)[:220], verdict, sorted(allowed), when, sorted(dep_ids)))
